@@ -6,7 +6,7 @@
    `_morgan` itself is Model.Morgan.morgan (C01), generic in the tuple hash h and in the labels; nothing of it is
    repeated here.  Definitions only; proofs in Proofs.CgrMorganProofs. *)
 From Coq Require Import ZArith List Bool.
-From Model Require Import PyBase PyHash Graph Morgan MorganFast Compose.
+From Model Require Import PyBase PyHash Graph Morgan Compose.
 Import ListNotations.
 Open Scope Z_scope.
 
@@ -29,9 +29,6 @@ Section CgrMorgan.
   Definition order_of (x : pyres cgr) : pyres labels := match x with Ok c => cgr_atoms_order c | Err e => Err e end.
 End CgrMorgan.
 
-(* executable instance: the CPython tuple hash (MorganFast.hash63 = PyHash.hash_ztuple on 63-bit machine integers) *)
-Definition py_cgr_atoms_order := cgr_atoms_order hash63.
-Definition py_datom_hash := datom_invariant hash63.
-Definition py_dbond_hash := dbond_invariant hash63.
-(* the same with the reference definition of the tuple hash over Z (no machine integers) *)
+(* the instance with the reference definition of the CPython tuple hash over Z (the correspondence evaluates the same
+   functions with MorganFast.hash63, the machine-integer implementation of that hash, and checks their agreement) *)
 Definition z_cgr_atoms_order := cgr_atoms_order hash_ztuple.
